@@ -370,7 +370,12 @@ func rpcRefreshContract(ctx context.Context, t TransportClient, tp TxPool, signe
 	// add the host inputs to the transaction
 	var hostInputSum types.Currency
 	for _, si := range hostInputsResp.HostInputs {
-		hostInputSum = hostInputSum.Add(si.Parent.SiacoinOutput.Value)
+		var overflow bool
+		hostInputSum, overflow = hostInputSum.AddWithOverflow(si.Parent.SiacoinOutput.Value)
+		if overflow {
+			signer.ReleaseInputs([]types.V2Transaction{renewalTxn})
+			return RPCRefreshContractResult{}, clientErrf("host input values overflow")
+		}
 		renewalTxn.SiacoinInputs = append(renewalTxn.SiacoinInputs, si)
 	}
 
@@ -1116,7 +1121,12 @@ func RPCFormContract(ctx context.Context, t TransportClient, tp TxPool, signer F
 	// add the host inputs to the transaction
 	var hostInputSum types.Currency
 	for _, si := range hostInputsResp.HostInputs {
-		hostInputSum = hostInputSum.Add(si.Parent.SiacoinOutput.Value)
+		var overflow bool
+		hostInputSum, overflow = hostInputSum.AddWithOverflow(si.Parent.SiacoinOutput.Value)
+		if overflow {
+			signer.ReleaseInputs([]types.V2Transaction{formationTxn})
+			return RPCFormContractResult{}, clientErrf("host input values overflow")
+		}
 		formationTxn.SiacoinInputs = append(formationTxn.SiacoinInputs, si)
 	}
 
@@ -1246,7 +1256,12 @@ func RPCRenewContract(ctx context.Context, t TransportClient, tp TxPool, signer 
 	// add the host inputs to the transaction
 	var hostInputSum types.Currency
 	for _, si := range hostInputsResp.HostInputs {
-		hostInputSum = hostInputSum.Add(si.Parent.SiacoinOutput.Value)
+		var overflow bool
+		hostInputSum, overflow = hostInputSum.AddWithOverflow(si.Parent.SiacoinOutput.Value)
+		if overflow {
+			signer.ReleaseInputs([]types.V2Transaction{renewalTxn})
+			return RPCRenewContractResult{}, clientErrf("host input values overflow")
+		}
 		renewalTxn.SiacoinInputs = append(renewalTxn.SiacoinInputs, si)
 	}
 
